@@ -47,10 +47,11 @@ VF_SECTION(concurrent_pairs, 16, 16, 300) {
   r.bound = "every unordered pair (and every call with itself) of 20 calls of the C08 string functions run concurrently: every schedule with <= 2 preemptions for same-function pairs whose calls have <= 150 (thorough 400) scheduling points (thorough: also cross pairs <= 150), <= 1 preemption otherwise; basic-block granularity of Strings.cc and the templates instantiated in the harness TU";
 }
 
-// First calls: every same-function pair (thorough: every pair) with each schedule in a freshly forked process.
+// First calls: each call with itself and with the next call of the same function (thorough: every same-function pair),
+// each schedule in a freshly forked process.
 VF_SECTION(concurrent_cold, 16, 16, 600) {
   std::vector<pp::Call> calls = make_calls();
   pp::run_pairs_cold(r, calls, r.thorough());
-  r.bound = "first calls: every same-function pair of the calls above and every call with itself (thorough: every pair), each schedule in a freshly forked process that has never called the library: every schedule with <= 1 preemption at basic-block granularity";
+  r.bound = "first calls: every call above with itself and with the next call of the same function (thorough: every same-function pair), each schedule in a freshly forked process that has never called the library: every schedule with <= 1 preemption at basic-block granularity";
 }
 VF_MAIN()
